@@ -40,6 +40,8 @@ func init() {
 		"strings.ReplaceAll":                     strings.ReplaceAll,
 		"strings.Replace":                        strings.Replace,
 		"strings.Split":                          strings.Split,
+		"strings.SplitAfter":                     strings.SplitAfter,
+		"strings.SplitN":                         strings.SplitN,
 		"strings.Join":                           strings.Join,
 		"strings.ToLower":                        strings.ToLower,
 		"strings.ToUpper":                        strings.ToUpper,
